@@ -166,6 +166,11 @@ func (c *conn) send(request data) (err error) {
 func (c *conn) Send(ctx context.Context, onExit func()) {
 	var err error
 	defer func() {
+		// recover has to be called here, directly by the deferred function:
+		// inside Exit it would not stop a panic of the loop
+		if e := recover(); e != nil {
+			err = core.NewPanicError(e)
+		}
 		c.Exit(onExit, err)
 	}()
 	for {
@@ -214,6 +219,11 @@ func (c *conn) receive() (err error) {
 func (c *conn) Receive(ctx context.Context, onExit func()) {
 	var err error
 	defer func() {
+		// recover has to be called here, directly by the deferred function:
+		// inside Exit it would not stop a panic of the loop
+		if e := recover(); e != nil {
+			err = core.NewPanicError(e)
+		}
 		c.Exit(onExit, err)
 	}()
 	for {
